@@ -15,7 +15,7 @@ MC = ("SPECIFICATION Spec\nCHECK_DEADLOCK FALSE\nCONSTANTS\n  RollViaFloat = {r}
 INVS = "INVARIANT SelectionKeepsDtype\nINVARIANT TemporalExact\nINVARIANT IntSumIs64\nINVARIANT CountIsNumber\nINVARIANT DiffIsDuration\n"
 TRACE_CFG = "SPECIFICATION TraceSpec\nCHECK_DEADLOCK FALSE\nCONSTANTS\n  RollViaFloat = FALSE\n  CountKeepsTemporal = FALSE\n  ForgetUnit = FALSE\n  NarrowSum = FALSE\nINVARIANT TraceInv\n"
 
-EMBS = ["f64", "f32", "i64", "i64big", "i32", "i32big", "i16", "i8", "u8", "u32", "u64", "bool",
+EMBS = ["f64", "f32", "i64", "i64big", "u64big", "i32", "i32big", "i16", "i8", "u8", "u32", "u64", "bool",
         "M8ns", "M8ns0", "M8s", "M8us", "M8ms", "m8ns", "m8s", "m8us", "i8lo", "i16lo", "i32lo"]
 VCONTS = ["np", "series", "index", "frame1", "series_tz", "nullable", "arrowseries", "pa", "pachunk", "pl", "plframe"]
 KCONTS = ["np", "series", "index", "pl", "pa", "pachunk", "arrowseries"]
